@@ -29,11 +29,131 @@ pub fn meta() -> CheckMeta {
     }
 }
 
+/// Degenerate starts of `newton_polynomial`: a start exactly on a critical point (p'(x0) = 0, the
+/// first step is infinite or 0/0) or so large that the evaluation overflows. No root can be
+/// promised there, but the property still forbids "a panic, a NaN or a silently wrong point": the
+/// outcome must be Err, or Ok(z) with z finite and a root to within the residual bound.
+/// (Added after the seeded change C08-m3 — a NaN step treated as convergence — went unnoticed.)
+mod degenerate {
+    use crate::json::J;
+    use crate::probe::{self, Guarded};
+    use crate::report::*;
+    use crate::rng::{CaseHash, Rng};
+    use bacon_sci::polynomial::Polynomial;
+    use bacon_sci::roots::newton_polynomial;
+    use num_complex::Complex;
+    type C = Complex<f64>;
+
+    fn expand(roots: &[f64], lead: f64) -> Vec<f64> {
+        // ascending coefficients of lead * prod (x - r)
+        let mut c = vec![lead];
+        for r in roots {
+            let mut n = vec![0.0; c.len() + 1];
+            for (i, v) in c.iter().enumerate() {
+                n[i + 1] += v;
+                n[i] -= v * r;
+            }
+            c = n;
+        }
+        c
+    }
+    fn horner(c: &[f64], x: C) -> (C, C, f64) {
+        let mut p = C::new(0.0, 0.0);
+        let mut d = C::new(0.0, 0.0);
+        let mut pt = 0.0;
+        for v in c.iter().rev() {
+            d = d * x + p;
+            p = p * x + *v;
+            pt = pt * x.norm() + v.abs();
+        }
+        (p, d, pt)
+    }
+
+    pub fn case(i: u64, seed: u64, rep: &mut Report) {
+        let mut rng = if i < 60 { Rng::for_case(808, "c08-degenerate-anchor", i) } else { Rng::for_case(seed, "c08-degenerate", i) };
+        let kind = i % 4;
+        let tol = rng.log10(-10.0, -4.0);
+        let n_max = 20 + rng.below(60);
+        // (ascending coefficients, start)
+        let (coef, start): (Vec<f64>, f64) = match kind {
+            0 => {
+                // even polynomial prod (x^2 - a_i^2), start exactly at the critical point 0
+                let m = 1 + rng.below(3);
+                let mut roots = vec![];
+                let mut a = rng.r(0.4, 1.0);
+                for _ in 0..m {
+                    roots.push(a);
+                    roots.push(-a);
+                    a += rng.r(0.4, 1.0);
+                }
+                (expand(&roots, rng.r(0.5, 2.0) * rng.sign()), 0.0)
+            }
+            1 => {
+                // x^2 + a^2 (no real root) from 0, on the real and on the complex type
+                let a = rng.r(0.5, 2.0);
+                (vec![a * a, 0.0, 1.0], 0.0)
+            }
+            2 => {
+                // cubic with critical points at c +- d, started exactly on one of them:
+                // p' = 3 (x - c)^2 - 3 d^2  =>  p = (x-c)^3 - 3 d^2 (x-c) + e, with dyadic c, d so that
+                // p'(c +- d) is exactly zero in floating point
+                let c = rng.int(-4, 4) as f64 * 0.5;
+                let d = [0.5, 1.0, 2.0][rng.below(3)];
+                let e = rng.int(-3, 3) as f64 * 0.25 + 0.125;
+                let co = vec![-c * c * c + 3.0 * d * d * c + e, 3.0 * c * c - 3.0 * d * d, -3.0 * c, 1.0];
+                (co, if rng.bool() { c + d } else { c - d })
+            }
+            _ => {
+                // overflow: a huge start on a quartic / sextic
+                let m = 2 + rng.below(2);
+                let roots: Vec<f64> = (0..2 * m).map(|k| (k as f64 - m as f64 + 0.5) * rng.r(0.6, 1.2)).collect();
+                (expand(&roots, 1.0), rng.sign() * 10f64.powi([80, 120, 200, 300][rng.below(4)]))
+            }
+        };
+        for complex in [false, true] {
+            rep.eval();
+            rep.count("newton_polynomial/degenerate_starts", 1);
+            let res: Guarded<Result<C, String>> = if complex {
+                let poly: Polynomial<C> = coef.iter().map(|v| C::new(*v, 0.0)).collect();
+                probe::guard(|| newton_polynomial(C::new(start, 0.0), &poly, tol, n_max))
+            } else {
+                let poly: Polynomial<f64> = coef.iter().copied().collect();
+                probe::guard(|| newton_polynomial(start, &poly, tol, n_max).map(|x| C::new(x, 0.0)))
+            };
+            let case = || J::obj().set("routine", "newton_polynomial").set("field", if complex { "Complex<f64>" } else { "f64" }).set("coefficients_ascending", J::fs(&coef)).set("start", start).set("tol", tol).set("n_max", n_max);
+            match res {
+                Guarded::Panic(m, l) => rep.violation("newton_polynomial/panic", case(), format!("panicked on a degenerate start: {} at {}", m, l)),
+                Guarded::Budget => {}
+                Guarded::Ok(Err(_)) => {
+                    rep.count("newton_polynomial/degenerate_err", 1);
+                    rep.nontrivial(CaseHash::new("c08-deg").fs(&coef).f(start).u(complex as u64).0);
+                }
+                Guarded::Ok(Ok(z)) => {
+                    if !(z.re.is_finite() && z.im.is_finite()) {
+                        rep.violation("newton_polynomial/non-finite-result", case(), format!("returned Ok({}) from a start on a critical point / overflowing start; Err is required when no root was found", z));
+                        continue;
+                    }
+                    let (p, d, pt) = horner(&coef, z);
+                    let bound = 4.0 * tol * d.norm() + 64.0 * f64::EPSILON * pt;
+                    rep.count("newton_polynomial/degenerate_ok", 1);
+                    if !(p.norm() <= bound) {
+                        rep.violation("newton_polynomial/wrong-root", case(), format!("returned Ok({}) with |p(z)| = {:e} > {:e}: not a root", z, p.norm(), bound));
+                    } else {
+                        rep.nontrivial(CaseHash::new("c08-deg").fs(&coef).f(start).u(complex as u64).0);
+                    }
+                }
+            }
+        }
+    }
+}
+
 pub fn stages(ctx: &Ctx) -> Vec<Stage> {
     let mut st = vec![];
     st.extend(systems::stages(ctx));
     st.extend(polys::stages(ctx));
     st.extend(steff::stages(ctx));
+    let seed = ctx.seed;
+    st.push(Stage::new("newton-poly-degenerate-starts", ctx.tier.pick(2_000, 50_000), move |i, rep| degenerate::case(i, seed, rep)));
     st
 }
 
@@ -42,5 +162,6 @@ pub fn thresholds(ctx: &Ctx, rep: &Report) -> Vec<Threshold> {
     t.extend(systems::thresholds(ctx, rep));
     t.extend(polys::thresholds(ctx, rep));
     t.extend(steff::thresholds(ctx, rep));
+    t.push(Threshold { what: "newton_polynomial: degenerate starts (critical point / overflow)".into(), required: ctx.tier.pick(3_000.0, 80_000.0), observed: rep.counter("newton_polynomial/degenerate_starts") as f64 });
     t
 }
